@@ -542,7 +542,7 @@ pub fn run_c05_func(ctx: &Ctx) {
         }
     }
     // 3. generated multi-edit mutations and random bytes
-    run_prop(ctx, &prop, crash_strategy, ctx.tier.pick(300_000, 10_000_000), workers());
+    run_prop(ctx, &prop, crash_strategy, ctx.tier.pick(300_000, 4_000_000), workers());
 }
 
 pub fn replay(id: &str, sub: &str, case: &serde_json::Value) -> Option<Result<Outcome, String>> {
